@@ -140,7 +140,10 @@ func drawGraph(t *tape.Tape, encrypted bool) []*node {
 			}
 			nd.value = d
 			nd.body = gen.Body(t, l+".body", 3000, false)
-			nd.filter = tape.Pick(t, l+".filter", "", "Flate", "AHx", "JBIG2")
+			nd.filter = tape.Pick(t, l+".filter", "", "Flate", "AHx", "JBIG2", "FlatePNG")
+			if nd.filter == "FlatePNG" {
+				nd.body = nd.body[:len(nd.body)/8*8]
+			}
 			if nd.filter == "JBIG2" {
 				nd.globals = nodes[t.Draw(l+".globals", n)].ref
 			}
@@ -163,6 +166,22 @@ func encodeBody(nd *node) (raw []byte, filter pdf.Object, parms pdf.Object) {
 		zw.Write(nd.body)
 		zw.Close()
 		return zb.Bytes(), pdf.Name("FlateDecode"), pdf.Dict{"Predictor": pdf.Integer(1)}
+	case "FlatePNG":
+		// PNG "Up" predictor over rows of 8 bytes: without the parameters the
+		// decoder returns different bytes, not an error
+		var zb bytes.Buffer
+		zw := zlib.NewWriter(&zb)
+		prev := make([]byte, 8)
+		for i := 0; i+8 <= len(nd.body); i += 8 {
+			row := []byte{2}
+			for k := 0; k < 8; k++ {
+				row = append(row, nd.body[i+k]-prev[k])
+			}
+			zw.Write(row)
+			prev = nd.body[i : i+8]
+		}
+		zw.Close()
+		return zb.Bytes(), pdf.Name("FlateDecode"), pdf.Dict{"Predictor": pdf.Integer(12), "Columns": pdf.Integer(8)}
 	case "AHx":
 		return []byte(fmt.Sprintf("%x>", nd.body)), pdf.Array{pdf.Name("ASCIIHexDecode")}, nil
 	case "JBIG2":
@@ -171,6 +190,20 @@ func encodeBody(nd *node) (raw []byte, filter pdf.Object, parms pdf.Object) {
 		return nd.body, pdf.Name("JBIG2Decode"), pdf.Dict{"JBIG2Globals": nd.globals}
 	}
 	return nd.body, nil, nil
+}
+
+// Image draws a source graph and returns its image as written by the
+// independent serialiser, with the references of its nodes: documents with
+// indirect /Filter, /DecodeParms and /Length, reference chains, free objects
+// and object streams, which the library's Writer never produces (base images
+// for the fault enumeration of C19 and the corruption walker of C05).
+func Image(t *tape.Tape) (img []byte, refs []pdf.Reference, ok bool) {
+	nodes := drawGraph(t, false)
+	img, ok = writeSourceRev(t, nodes)
+	for _, nd := range nodes {
+		refs = append(refs, nd.ref)
+	}
+	return img, refs, ok
 }
 
 // writeSourceRev serialises the graph with the independent serialiser.
